@@ -632,13 +632,16 @@ def cpython_oracle(p: Dict[str, Any], root: Path, order: Optional[Sequence[int]]
 # ------------------------------------------------------------------ arbitrary sources (traces not from the spec)
 
 def build_sources(paths: Sequence[Path] = (), texts: Sequence[Tuple[str, str]] = (), record_states: bool = True,
-                  rank: Optional[Callable[[Path], Any]] = None) -> Dict[str, Any]:
-    """Build real packages / module texts with the recorder installed. `rank`: optional sort key imposing a schedule."""
+                  rank: Optional[Callable[[Path], Any]] = None, options: Optional[Dict[str, Any]] = None) -> Dict[str, Any]:
+    """Build real packages / module texts with the recorder installed. `rank`: optional sort key imposing a schedule;
+    `options`: attributes set on system.options before anything is added (what the command line would have set)."""
     from pydoctor import model
 
     rec = Recorder(record_states)
     undo = rec.install()
     system = model.System()
+    for k, v in (options or {}).items():
+        setattr(system.options, k, v)
     rec.system = system
     msgs: List[Tuple[str, str]] = []
     orig_msg = model.System.msg
